@@ -168,7 +168,11 @@ def _opts(w, tier, **kw):
          "max_paths": 400000, "max_depth": 3000, "path_budget_s": 40, "max_failures": 3,
          "max_arity": 3, "nested_arity": 2, "cmp_widths": sorted({1, w}),
          "ext_amounts": (lambda x: sorted({1, x // 2, x - 1, 8} & set(range(1, x)))),
-         "concat_filter": (lambda x, cs: [c for c in cs if c[0] in (1, x // 2, x - 1, 8)]),
+         # a Concat operand has two parts (first part 1, half, all but one, or 8 bits wide) or three (the first two 1 or a quarter wide):
+         # rewrites that look through a Concat index its parts, so "two parts" must not be the only arity they ever see
+         "concat_arity": 3,
+         "concat_filter": (lambda x, cs: [c for c in cs if (len(c) == 2 and c[0] in (1, x // 2, x - 1, 8)) or
+                                          (len(c) == 3 and c[0] in (1, x // 4) and c[1] in (1, x // 4))]),
          "child_widths": (lambda x: sorted({x, x + 1, x + 8} if x <= 16 else {x, x + 8})),
          "extract_from": (lambda x: sorted({x, x + 1, 2 * x, x + 8})),
          "size_obligation": None}
@@ -361,6 +365,9 @@ def _replay_rewriter(task, failure):
     else:
         raw = BV(op, args, length=res.length)
     zr, ze = claripy.backends.z3.convert(res), claripy.backends.z3.convert(raw)
+    if zr.sort() != ze.sort():
+        # C05: the rewrite does not even have the width / sort of the operation it stands for
+        return {"reproduced": True, "text": f"{fn}{args!r} = {res!r} has sort {zr.sort()}, the written {op} has sort {ze.sort()}"}
     s = _z3.Solver(ctx=zr.ctx)
     s.add(zr != ze)
     r = s.check()
